@@ -24,6 +24,7 @@ def call(name, *args):
 def run(chk, tier):
     prog, info = common.program("all")
     common.note_extraction(chk, info, prog)
+    common.vacuity(chk, ['R-LIN', 'R-TABLE'])
     chk.explanation = ("Necessary conditions of the partition property, decided on the value-numbered summary of the summarising loop (one iteration as a closed form "
                        "over the open group G, the summary S and the enumerated message (i, m)), split jointly on message kind, presence of G and the continuation "
                        "tests: every case either extends G (count + 1, end index = i, start and type kept, nothing pushed) — allowed only under that kind's "
